@@ -80,6 +80,7 @@ def main(argv):
     viol = []
     struct_viol = []
     newcallee = {}
+    bounded = []
     undec = []
     knownhits = []
     samples = []
@@ -111,10 +112,16 @@ def main(argv):
                     continue
             undec.append('%s: %s' % (r['unit'], r['reason'][:300]))
             continue
+        is_bounded = bool(u.get('kind') == 'native' or u.get('bounded'))
+        if is_bounded:
+            bounded.append({'unit': r['unit'], 'bound': r.get('bounded', ''), 'status': r['status'],
+                            'result': [o['desc'][-200:] for o in r['obligations']][:3]})
         for o in r['obligations']:
-            n_ob += 1
+            if not is_bounded:
+                n_ob += 1
             if o['status'] == 'SUCCESS':
-                n_ok += 1
+                if not is_bounded:
+                    n_ok += 1
                 if len(samples) < 12 and ('[%s]' % prop) in o['desc']:
                     samples.append({'unit': r['unit'], 'obligation': o['id'], 'where': '%s:%s' % (o['file'], o['line']), 'text': o['desc'], 'status': 'discharged'})
             elif o['status'] == 'FAILURE':
@@ -207,6 +214,7 @@ def main(argv):
             'functions_under_contract': sorted(set(functions)),
             'samples': samples[:12],
             'solver_s': round(solver_s, 1),
+            'bounded_standins_not_counted_as_proved': bounded,
             'supporting_static_facts': extra_info,
             'undecided': undec,
             'selftest_mutants_run': selftest_n, 'selftest_mutants_not_caught': selftest_bad,
